@@ -321,7 +321,7 @@ def pattern_phase(chk, hy, env, batch, cases):
     exprs = []
     for pat, subjects in cases:
         h = P.pat_coq(pat)
-        exprs.append("(compile mg %s)" % h)
+        exprs.append("(compile_checked mg %s)" % h)
     span_c = batch.add(exprs)
     exprs = []
     for pat, subjects in cases:
@@ -352,8 +352,10 @@ def pattern_phase(chk, hy, env, batch, cases):
         except HyLanguageError as e:
             real_ast = ("syntax", str(e)[:80])
         chk.count("pattern-ast")
-        if comp[idx] != real_ast:
-            chk.disagree("Pattern.compile vs hy_compile (ast.pattern)", P.pat_hy(pat), repr(comp[idx]), repr(real_ast))
+        model_ast = ("syntax",) if comp[idx] == "None" else comp[idx][1]
+        if model_ast != (real_ast[:1] if real_ast[0] == "syntax" else real_ast):
+            chk.disagree("Pattern.compile_checked vs hy_compile (ast.pattern / HySyntaxError)", P.pat_hy(pat),
+                         repr(comp[idx]), repr(real_ast))
         model_valid = val[idx] == "true"
         classes = classify(pat)
         kinds = "+".join(sorted(classes)) or "plain"
@@ -380,6 +382,81 @@ def pattern_phase(chk, hy, env, batch, cases):
                     desc["class"] = cls
                 chk.fail("pattern", desc, repr(r_hy), repr(r_py),
                          "hy: %s   python: %s" % (src_hy, src_py.replace("\n", "\\n")))
+
+
+# ------------------------------------------------------------------ the user errors of compile_pattern
+
+def rejected_patterns(rng, n):
+    """patterns containing `p :as _`, an or-pattern with < 2 alternatives or a value pattern with < 2 symbols,
+    at top level and inside every kind of compound pattern"""
+    lit = lambda k: ("lit", "int", k)
+
+    def atom():
+        r = rng.randrange(6)
+        inner = rng.choice([lit(1), ("sym", "n9"), ("seq", "list", [lit(1), ("sym", "n8")]), ("sym", "None"),
+                            ("value", ["mm", "K"]), ("kw", "a")])
+        return [("or", []), ("or", [inner]), ("value", []), ("value", [rng.choice(["y", "mm", "a-b"])]),
+                ("as", inner, "_"), ("as", ("or", [lit(1), lit(2)]), "_")][r]
+
+    def wrap(x, depth):
+        if depth == 0:
+            return x
+        r = rng.randrange(7)
+        if r == 0:
+            items = [lit(5), x] if rng.random() < 0.5 else [x, ("star", "r9")]
+            w = ("seq", rng.choice(["list", "tuple"]), items)
+        elif r == 1:
+            w = ("map", [(lit(1), x)], rng.choice([None, "m9"]))
+        elif r == 2:
+            w = ("class", ["Pt"], [x], [])
+        elif r == 3:
+            w = ("class", rng.choice([["Pt"], ["mm", "Pt"]]), [], [("p", x)])
+        elif r == 4:
+            w = ("or", [lit(7), x] if rng.random() < 0.5 else [x, lit(7)])
+        elif r == 5 and x[0] != "as":
+            w = ("as", x, "w9")
+        else:
+            w = ("seq", "list", [x])
+        return wrap(w, depth - 1)
+    fixed = [("or", []), ("or", [lit(1)]), ("value", ["y"]), ("value", []), ("as", lit(1), "_"), ("as", ("sym", "x"), "_"),
+             ("seq", "list", [("or", [lit(2)]), lit(3)])]
+    out = list(fixed)
+    while len(out) < n:
+        out.append(wrap(atom(), rng.choice([0, 1, 1, 2, 3])))
+    return out
+
+
+def rejected_phase(chk, hy, env, batch, n):
+    """each must be a HySyntaxError raised by Hy itself -- not the ValueError/SyntaxError with which compile()
+    used to reject the node Hy emitted -- and the model's compile_pattern must reject it too"""
+    from hy.compiler import hy_compile
+    from hy.errors import HySyntaxError
+    pats = rejected_patterns(chk.rng, n)
+    span = batch.add(["(compile_checked mg %s)" % P.pat_coq(p) for p in pats])
+    yield
+    for pat, model in zip(pats, batch.get(span)):
+        src = "(match s %s 1)" % P.pat_hy(pat)
+        try:
+            hy_compile(hy.read_many(src), env, import_stdlib=False)
+            got = "compiles"
+        except HySyntaxError:
+            got = "HySyntaxError"
+        except Exception as e:
+            got = type(e).__name__
+        if got == "compiles":
+            try:
+                hy.eval(hy.read("(fn [s] %s)" % src), module=env)
+                got = "compiles and Python accepts the node"
+            except Exception as e:
+                got = "compiles, then %s from compile()" % type(e).__name__
+        chk.count("rejected-pattern:" + pat[0])
+        chk.case(("rej", P.pat_hy(pat)), nontrivial=True,
+                 sample={"form": src, "result": got} if chk.evaluations % 97 == 1 else None)
+        if model != "None":
+            chk.disagree("Pattern.compile_checked vs hy_compile (must be a syntax error)", src, repr(model), got)
+        if got != "HySyntaxError":
+            chk.fail("pattern-must-be-syntax-error", {"form": src}, got, "HySyntaxError",
+                     "hy.eval(hy.read(%r))" % ("(fn [s] %s)" % src))
 
 
 GUARDS = [
@@ -590,7 +667,8 @@ def run_all(chk, hy, model_ok, thorough):
         cases.append((pat, [v, mutate_value(v, rng, hy), mutate_value(v, rng, hy), random_value(rng, hy)]))
     batch = Batch()
     if model_ok:
-        phases = [pattern_phase(chk, hy, env, batch, cases), structure_phase(chk, hy, env, batch, 200 if thorough else 60)]
+        phases = [pattern_phase(chk, hy, env, batch, cases), structure_phase(chk, hy, env, batch, 200 if thorough else 60),
+                  rejected_phase(chk, hy, env, batch, 600 if thorough else 120)]
         try:
             for ph in phases:
                 next(ph)
@@ -603,6 +681,19 @@ def run_all(chk, hy, model_ok, thorough):
             model_ok = False
     if not model_ok:
         # the search for a failing input without the model: the differential oracle alone
+        from hy.errors import HySyntaxError
+        for pat in rejected_patterns(rng, 120):
+            src = "(fn [s] (match s %s 1))" % P.pat_hy(pat)
+            try:
+                hy.eval(hy.read(src), module=env)
+                got = "accepted"
+            except HySyntaxError:
+                got = "HySyntaxError"
+            except Exception as e:
+                got = type(e).__name__
+            chk.case(("rej", P.pat_hy(pat)))
+            if got != "HySyntaxError":
+                chk.fail("pattern-must-be-syntax-error", {"form": src}, got, "HySyntaxError", "hy.eval(hy.read(%r))" % src)
         for pat, subjects in cases:
             st_hy, src_hy = build_hy(hy, env, pat)
             st_py, src_py = build_py(hy, env, pat)
